@@ -7,27 +7,27 @@ BUILT = sys.argv[1:]  # ids of properties whose checks exist; default: all claim
 CLAIMED = {
  "C01": ("exploration", "5", "Seeded simulation: grammar-generated messages damaged in flight by a transport stub (truncate/flip/delete/insert/replace/splice/garbage) are executed against random trees whose handlers pull 0..n+2 parameters through every TryFrom<Token> conversion and drive list iterators to their first error; every run is checked for panic, the library's internal-parser-error code, lexer progress and termination (watchdog), in a debug-assertion+overflow-check profile and in release, plus a Miri pass over a bounded slice for the unsafe float->int cast. Sampling of the corruption neighbourhood of the grammar, not all byte strings.",
          "deterministic simulation with transport fault injection (seeded search) + Miri slice"),
- "C02": ("exploration", "5", "Seeded simulation: random trees (default leaves/branches, anonymous default leaf, suffixed siblings, same names in different scopes) x message histories mixing absolute, relative and common headers in every spelling; the handler-invocation log of the real dispatcher is compared unit by unit with a resolver written from the property statement, including -113 with no handler, and bounded recovery: the first unit after any failed, truncated or garbage predecessor resolves from the root.",
+ "C02": ("exploration", "5", "Seeded simulation: random trees (default leaves/branches, anonymous default leaf, suffixed siblings, same names in different scopes) x message histories mixing absolute, relative and common headers in every spelling; the handler-invocation log of the real dispatcher is compared unit by unit with a resolver written from the property statement, including -113 with no handler, and bounded recovery: the first unit after any failed, truncated or garbage predecessor resolves from the root. Also chains of 30..260 consecutive relative units in one message.",
          "deterministic simulation, reference-model lock-step over message histories"),
  "C04": ("exploration", "5", "Seeded simulation of the fault-shaped half of the property: end-to-end element integrity (what the controller put on the wire is what recording handlers receive, type and exact bytes) over all seven data types with separators inside containers and every white-space placement the author is sure of, plus a catalogue of 37 IEEE 488.2 syntax faults injected at every element position, which must yield a command error and stop execution. The 'exhaustive up to bounded length' part of the quantifier is not addressed.",
          "deterministic simulation with catalogued syntax-fault injection"),
  "C05": ("fault_enumeration", "5", "For each sampled well-formed message every failure position x failure kind is injected (handler error at each phase, under/over-consumption, syntax fault in header and parameters, undefined header, every formatter capacity, every formatter write-call index transient and persistent via the verif-hooks formatter); handler log, returned error and error-hook log are checked against 'first error aborts, reported exactly once'.",
          "fault enumeration over seeded base messages in a deterministic simulator"),
- "C06": ("exploration", "5", "Seeded simulation: handlers are simulator actors whose pull pattern (required/optional, count 0..n+2) is scheduled per unit; every (supplied, consumed) arity pair at first/middle/last unit and every unit ending; every datum is unique so leakage across ';' is detectable.",
+ "C06": ("exploration", "5", "Seeded simulation: handlers are simulator actors whose pull pattern (required/optional, count 0..n+2) is scheduled per unit; every (supplied, consumed) arity pair at first/middle/last unit and every unit ending; every datum is unique so leakage across ';' is detectable. One unit in about a hundred is a long list of 254..513 elements pulled to the end.",
          "deterministic simulation, scheduled handler behaviour"),
- "C10": ("exploration", "5", "Seeded simulation: successful messages with any interleaving of query/non-query units, 1-5 data of mixed types, response headers, every message ending, both shipped formatters; the output buffer is compared byte-exactly with a framing model built from stand-alone formatted data.",
+ "C10": ("exploration", "5", "Seeded simulation: successful messages with any interleaving of query/non-query units, 1-5 data of mixed types, response headers, every message ending, both shipped formatters; the output buffer is compared byte-exactly with a framing model built from stand-alone formatted data. Response data include values at the edges of their types and signed non-decimal forms.",
          "deterministic simulation, framing reference model"),
  "C11": ("fault_enumeration", "5", "For each sampled message the real ArrayVec<u8,CAP> formatter is run at EVERY capacity 0..=len+1 (exhaustion at every write) and compared with the growable-buffer reference; a counting global allocator armed around Node::run (harness callbacks excluded) must read 0 in the alloc-free configuration.",
          "fault enumeration (all capacities) + allocation counting in a deterministic simulator"),
- "C12": ("exploration", "5", "Seeded producer/consumer histories on both shipped queue implementations (capacities 1,2,3,4,5,8,16,32 and Vec), result and full contents compared with a bounded-FIFO model after every operation.",
+ "C12": ("exploration", "5", "Seeded producer/consumer histories on both shipped queue implementations (capacities 1,2,3,4,5,8,16,32 and Vec), result and full contents compared with a bounded-FIFO model after every operation. One run in 40 begins with 255..700 insertions of one identical error.",
          "deterministic simulation, reference-model lock-step over operation histories"),
- "C13": ("exploration", "5", "Seeded histories on the full instrument (real mandated tree + random app sub-tree, 1-3 controllers) mixing valid messages, failures of every kind and the queue/ESR queries in any position; queue contents, ESR and responses compared with the status model after every message.",
+ "C13": ("exploration", "5", "Seeded histories on the full instrument (real mandated tree + random app sub-tree, 1-3 controllers) mixing valid messages, failures of every kind and the queue/ESR queries in any position; queue contents, ESR and responses compared with the status model after every message. Backlog runs: 63..300 and >65535 unread items, then COUNt?/ALL?/NEXT?.",
          "deterministic simulation with fault injection, status reference model"),
  "C14": ("fault_enumeration", "5", "The error code is swept as a fault parameter over all 65536 values through the real path run -> handle_error -> push_error -> *ESR? / SYST:ERR?; in addition the class of every library-raised error is monitored in seeded runs with catalogued faults.",
          "exhaustive sweep of the injected error code + class monitor in simulation"),
  "C15": ("exploration", "5", "Seeded interleavings of a hardware actor (condition changes, also inside a message) and a controller issuing STATus commands on both register sets, compared with a per-bit latch model after every step.",
          "deterministic simulation, hardware/controller interleavings vs latch model"),
- "C16": ("exploration", "5", "Seeded histories of common commands, STATus/SYSTem commands, failing messages, hardware events, self-test results and read/unread responses over 1-3 controllers; *STB? and all registers compared with the 488.2 status model after every message.",
+ "C16": ("exploration", "5", "Seeded histories of common commands, STATus/SYSTem commands, failing messages, hardware events, self-test results and read/unread responses over 1-3 controllers; *STB? and all registers compared with the 488.2 status model after every message. One run in 24 contains a device-side burst of 255..768 errors followed by *STB?.",
          "deterministic simulation, status-byte reference model, MAV from simulated transport"),
 }
 NOTES = {
